@@ -375,7 +375,7 @@ def _part2(ctx):
             m_, n_ = info["matrix_shape"]
             xs = [T.vals(ctx.rng, (n_,), G.is_cplx(info["in_dtype"])).astype(np.complex128)]
             ys = [T.vals(ctx.rng, (m_,), G.is_cplx(info["out_dtype"])).astype(np.complex128)]
-            impl = env.observe(e, xs, ys)
+            impl = env.evaluate(impl, xs, ys)
             info, o = impl[1], impl[2]
             # probes: wrong input shape, wrong adjoint dtype, wrong adjoint shape
             bad_in = info["in_shape"] + [1] if not G.is_nested(info["in_shape"]) else info["in_shape"] + [[1]]
